@@ -133,6 +133,44 @@ def make_context(ctx, order, U, masks=None):
     return m, refs, ext, b
 
 
+HISTORIES = ('K0', 'K1', 'K2', 'rev')
+
+
+def split_oi(oi):
+    """An order index may carry a history: 5 or '5:rev' -> (5, None) / (5, 'rev')."""
+    if isinstance(oi, str):
+        a, _, h = oi.partition(':')
+        return int(a), (h or None)
+    return oi, None
+
+
+def make_history(ctx, order, U, masks=None, auto=False):
+    """Manager with a HISTORY holding every function of `masks`: K0-K2 as in make_context;
+    'rev' = built (with a collection in between) in the reversed order and then reordered to
+    `order`, so that node numbers are not topological and the `vars` dict is not in level order.
+    -> (manager, handles: mask -> reference or Function)"""
+    import dd.bdd as _bddmod
+    if ctx == 'rev':
+        n = len(order)
+        rev = {v: n - 1 - l for v, l in order.items()}
+        m, refs, ext, b = make_context('K1', rev, U, masks)
+        _bddmod.reorder(m, dict(order))
+        b.reset()
+        for f, r in refs.items():
+            if b.den(r) != f:
+                raise Violation('held reference changed denotation across reordering',
+                                mask=U.fmt(f))
+    else:
+        m, refs, ext, b = make_context(ctx, order, U, masks)
+    if not auto:
+        return m, refs
+    a = S.autoref_around(m)
+    hs = {f: a._add_int(r) for f, r in refs.items()}
+    for r in refs.values():
+        m.decref(r)
+    return a, hs
+
+
 def nontrivial(U, *masks):
     """Rule used by the sweeps: no operand is a constant."""
     return all(f != 0 and f != U.full for f in masks)
